@@ -18,6 +18,11 @@ IMPORT_PROJECTS = [
     'from inline_snapshot import snapshot, outsource\n\ne_mod = snapshot()\n\nimport string\n\n\ndef test_a():\n    assert outsource("x" * 40) == e_mod\n\n\nimport json\n',
     '"""module docstring"""\nfrom __future__ import annotations\nfrom inline_snapshot import snapshot\n\n\n' + W_CLASS + 's_mod = snapshot()\nif True:\n    import string\n\nimport json\n\n\n'
     'def test_a():\n    assert (W(), 1) == s_mod\n',
+    # the name is imported, but only inside another test function / under another name: the rest of the module cannot use it
+    'from inline_snapshot import snapshot\n\n\n' + W_CLASS + 'def test_known():\n    from inline_snapshot import HasRepr\n\n    assert W() == snapshot(HasRepr(W, "<W>"))\n\n\n'
+    'def test_new():\n    assert [W(), 4] == snapshot()\n',
+    'from inline_snapshot import snapshot, outsource\nfrom inline_snapshot import external as ext\n\n\ndef test_known():\n    from inline_snapshot import external\n\n    assert external is ext\n\n\n'
+    'def test_new():\n    assert {"page": outsource("p" * 30)} == snapshot()\n',
 ]
 
 
